@@ -20,11 +20,14 @@ Definition flags_of (s : rstream) : list Z :=
    z_of_bool (completed s); z_of_bool (queuedStopSending s); z_of_bool (queuedMaxStreamData s);
    z_of_bool (finalRecv (fc s))].
 
+Definition mask_lb (l : list Z) : list Z :=
+  match l with a :: b :: _ :: r => a :: b :: 0 :: r | _ => l end.
+
 Definition model_obs (c : case) : obs :=
   match c with
   | RC rw maxrw cw cmax ops _ _ _ _ =>
     let '(s, rs) := rrun (new_rstream rw maxrw cw cmax) ops in
-    RCObs rs (dump_base (sb (fc s))) (dump_base (cn s)) (flags_of s)
+    RCObs rs (mask_lb (dump_base (sb (fc s)))) (mask_lb (dump_base (cn s))) (flags_of s)
   end.
 
 Fixpoint zl_eqb (a b : list Z) : bool :=
